@@ -46,6 +46,7 @@ fn cross_plan(prop: &str, thorough: bool) -> Option<(universal::Oracle, bool, Ve
         "C01" => (universal::c01, true, if thorough { except("C02", &["C04", "C11", "C03"]).into_iter().filter(|h| *h != "C01").collect() } else { except("C02", &["C04", "C11"]).into_iter().filter(|h| *h != "C01").collect() }),
         "C11" => (universal::c11, true, if thorough { except("C02", &["C04", "C03"]) } else { except("C02", &["C04"]) }),
         "C02" => (universal::c02, true, if thorough { except("C02", &["C04", "C11", "C03"]) } else { except("C02", &["C04", "C11"]) }),
+        "C09" => (universal::c09, true, if thorough { except("C09", &["C04", "C11", "C03"]) } else { except("C09", &["C04", "C11"]) }),
         "C04" => (universal::c04, false, except("C04", &[])),
         "C05" => (universal::c05, false, except("C05", &[])),
         "C06" => (universal::c06, false, except("C06", &[])),
@@ -72,9 +73,11 @@ pub fn dispatch(prop: &str, ctx: &Ctx, rep: &mut Report) -> bool {
     if ctx.replay.is_none() && !universal::IN_CROSS.load(std::sync::atomic::Ordering::SeqCst) {
         if let Some((o, tol, hosts)) = cross_plan(prop, ctx.tier.is_thorough()) {
             universal::watch_panics(prop == "C02");
+            universal::watch_dest(prop == "C09");
             // C07's region-fidelity part also judges the later dumps of re-used writers
             universal::run_hosts_ext(rep, ctx.tier, o, tol, prop == "C07", &hosts);
             universal::watch_panics(false);
+            universal::watch_dest(false);
             if prop == "C02" {
                 rep.set("cross_dump_requests_watched_for_panic_and_hang", mdv_core::json!(universal::requests_seen()));
             }
